@@ -10,7 +10,7 @@ use serde_json::{json, Value};
 pub struct P;
 pub static C18: P = P;
 
-pub const WAYS: [&str; 15] = [
+pub const WAYS: [&str; 16] = [
     "class + user sheet .h{display:none}",
     "style=\"display:none\" (document CSS enabled)",
     "style=\"height:0;overflow:hidden\"",
@@ -26,6 +26,7 @@ pub const WAYS: [&str; 15] = [
     "class + sheet T .h{display:none} with T the element's own tag (hidden exactly when an ancestor is a T)",
     "class + selector list #nomatch, .h, p.zz{display:none}",
     "a class name using every identifier character: .h0123456789_-azAZ{display:none}",
+    "descendant selector with a compound ancestor: T.w .h{display:none}, T the outermost ancestor's tag, every ancestor carrying class w",
 ];
 
 #[derive(Serialize, Deserialize)]
@@ -45,10 +46,20 @@ struct Case {
 
 fn mark(d: &[N], p: &[usize], way: usize) -> String {
     let mut dm = d.to_vec();
+    if way == 15 {
+        // every proper ancestor gets class w (so the nearest ancestor satisfies part of the
+        // compound even when its tag differs from the outermost ancestor's)
+        for k in 1..p.len() {
+            if let N::E(_, attrs, _) = node_at_mut(&mut dm, &p[..k]) {
+                attrs.push(("class".into(), "w".into()));
+            }
+        }
+    }
     if let N::E(_, attrs, _) = node_at_mut(&mut dm, p) {
         match way {
             0 | 4 | 5 | 6 | 8 | 9 | 10 | 11 | 12 | 13 => attrs.push(("class".into(), "h".into())),
             14 => attrs.push(("class".into(), "h0123456789_-azAZ".into())),
+            15 => attrs.push(("class".into(), "h".into())),
             1 => attrs.push(("style".into(), "display:none".into())),
             2 => attrs.push(("style".into(), "height:0;overflow:hidden".into())),
             3 => attrs.push(("id".into(), "hh".into())),
@@ -68,6 +79,13 @@ fn delete(d: &[N], p: &[usize], way: usize) -> String {
         return mark(d, p, way);
     }
     let mut dd = d.to_vec();
+    if way == 15 {
+        for k in 1..p.len() {
+            if let N::E(_, attrs, _) = node_at_mut(&mut dd, &p[..k]) {
+                attrs.push(("class".into(), "w".into()));
+            }
+        }
+    }
     // the subtree is replaced by an empty comment, so the text nodes on either side stay
     // separate nodes exactly as when the element is merely hidden
     *node_at_mut(&mut dd, p) = N::C(String::new());
@@ -92,6 +110,9 @@ fn cfg_for(way: usize, rich: bool, tag: &str) -> Cfg {
         11 => base.with(Opt::UserCss("html .h{display:none}".into())),
         13 => base.with(Opt::UserCss("#nomatch, .h, p.zz{display:none}".into())),
         14 => base.with(Opt::UserCss(".h0123456789_-azAZ{display:none}".into())),
+        // `tag` holds the outermost ancestor's tag for this way (empty: no ancestor)
+        15 if !tag.is_empty() => base.with(Opt::UserCss(format!("{tag}.w .h{{display:none}}"))),
+        15 => base.with(Opt::UserCss(".h{display:none}".into())),
         12 => base.with(Opt::UserCss(format!("{tag} .h{{display:none}}"))),
         _ => base,
     }
@@ -172,7 +193,8 @@ impl Scope for S {
                         if rich && way != 0 {
                             continue;
                         }
-                        check(&Case { marked: marked.clone(), deleted: deleted.clone(), original: original.clone(), way, width, rich, tag: tag.clone(), designated }, &tag, cx);
+                        let case_tag = if way == 15 { if p.len() > 1 { tag_of(node_at(d, &p[..1])).to_string() } else { String::new() } } else { tag.clone() };
+                        check(&Case { marked: marked.clone(), deleted: deleted.clone(), original: original.clone(), way, width, rich, tag: case_tag, designated }, &tag, cx);
                     }
                 }
             }
@@ -193,7 +215,7 @@ impl Prop for P {
     fn build(&self, tier: Tier) -> Box<dyn Scope> {
         let docs = block_docs(tier.pick(2, 3), G { tables: true, pre: true, valid_only: true });
         let docs: Vec<Vec<N>> = if tier == Tier::Thorough { docs.into_iter().step_by(2).collect() } else { docs };
-        Box::new(S { docs, widths: tier.pick(vec![1, 2, 3, 4, 5, 6, 8, 10, 14, 20], (1..=24).chain([30, 40, 60, 100]).collect()), ways: tier.pick(vec![0, 1, 2, 3, 4, 8, 9, 11, 12, 13, 14], vec![0, 1, 2, 3, 4, 5, 6, 7, 8, 9, 10, 11, 12, 13, 14]) })
+        Box::new(S { docs, widths: tier.pick(vec![1, 2, 3, 4, 5, 6, 8, 10, 14, 20], (1..=24).chain([30, 40, 60, 100]).collect()), ways: tier.pick(vec![0, 1, 2, 3, 4, 8, 9, 11, 12, 13, 14, 15], vec![0, 1, 2, 3, 4, 5, 6, 7, 8, 9, 10, 11, 12, 13, 14, 15]) })
     }
     fn replay(&self, case: &Value, cx: &mut Cx) {
         let c: Case = serde_json::from_value(case.clone()).expect("C18 case");
